@@ -159,6 +159,87 @@ static unsigned gflags_for_mode(void)
     fprintf(stderr, "drv_ctr: unknown mode %s\n", vh_arg_mode); exit(2);
 }
 
+/* ------------------------------------------------------------------ */
+/* marathon: one object lives through tens of thousands of calls (tiny and
+ * huge encrypts, hundreds of rekeys / tweak changes / counter sets), checked
+ * incrementally against the reference stream.  Reaches what short histories
+ * cannot: call counters, long streams, large single calls. */
+typedef struct { int mode; uint8_t key[48]; unsigned klen, rounds; uint8_t tweak[16]; uint8_t ctr[16]; uint64_t pos; int scope; } mara_t;
+static void mara_ks(const vh_cipher *c, const mara_t *m, uint64_t blk, uint8_t *ks)
+{
+    uint8_t cb[16];
+    memcpy(cb, m->ctr, c->bb); ref_ctr_add(cb, c->bb, blk);
+    if (c->id == CIPH_MANTIS) ref_mantis_encrypt(m->rounds, m->key, m->tweak, cb, ks);
+    else if (m->mode == 1) ref_skinny_key_crypt(c->bb, m->key, m->klen, 0, cb, ks);
+    else ref_skinny_tweaked_crypt(c->bb, m->key, m->klen, m->tweak, c->bb, 0, cb, ks);
+}
+static void marathon_case(uint64_t idx)
+{
+    vh_rng r; const vh_cipher *c = &vh_ciphers[idx % CIPH_N];
+    int be = (int)((idx / CIPH_N) % (uint64_t)(maxbe[c->id] + 1));
+    uint64_t nops = strtoull(vh_getarg("marathon-ops", "70000"), NULL, 0), op, calls = 0, rekeys = 0, bigcalls = 0;
+    static uint8_t in[1200000], out[1200000], exp_[1200000];
+    vh_handle h; mara_t m; char pfx[160], d[400];
+    vh_rng_seed(&r, vh_seed, 0xA7, idx);
+    snprintf(d, sizeof(d), "{\"driver\":\"drv_ctr\",\"prop\":\"%s\",\"mode\":\"marathon\",\"seed\":%llu,\"case\":%llu,\"variant\":\"%s\"}", prop, (unsigned long long)vh_seed, (unsigned long long)idx, vh_variant);
+    snprintf(pfx, sizeof(pfx), "%s:%s:%s:marathon", prop, c->name, vh_backend_names[be]);
+    vh_case_begin(idx, pfx, d);
+    memset(&h, 0, sizeof(h)); memset(&m, 0, sizeof(m));
+    vh_set_cap(be);
+    vh_call_begin("ctr_init"); c->ctr_init(&h); vh_call_end();
+    if (c->ctr_backend(&h) != be) { vh_violation("C05:backend-not-pinned", "{}", d); c->ctr_cleanup(&h); return; }
+    m.scope = 0;
+    for (op = 0; op < nops; ++op) {
+        uint32_t x = m.mode ? vh_below(&r, 1000) : 999;
+        if (x >= 990) {            /* new key (then counter) */
+            int tw = c->has_tkey && vh_below(&r, 2);
+            m.klen = c->id == CIPH_MANTIS ? 16 : c->bb + vh_below(&r, (tw ? 1 : 2) * c->bb + 1);
+            m.rounds = 5 + vh_below(&r, 4); m.mode = tw ? 2 : 1;
+            memset(m.key, 0, sizeof(m.key)); vh_rand_bytes(&r, m.key, m.klen); memset(m.tweak, 0, 16);
+            vh_call_begin("ctr_set_key"); if (tw) c->ctr_set_tkey(&h, m.key, m.klen); else c->ctr_set_key(&h, m.key, m.klen, m.rounds); vh_call_end();
+            m.scope = 0; ++rekeys;
+        } else if (x >= 975 && (m.mode == 2 || c->id == CIPH_MANTIS)) {
+            unsigned tl = c->id == CIPH_MANTIS ? 8 : 1 + vh_below(&r, c->bb);
+            memset(m.tweak, 0, 16); vh_rand_bytes(&r, m.tweak, tl);
+            vh_call_begin("ctr_set_tweak"); c->ctr_set_tweak(&h, m.tweak, tl); vh_call_end();
+            m.scope = 0; ++rekeys;
+        }
+        if (!m.scope || x >= 960) {   /* counter set starts a judged segment */
+            unsigned cl = vh_below(&r, 4) ? c->bb : vh_below(&r, c->bb + 1);
+            uint8_t cb[16]; vh_rand_bytes(&r, cb, 16);
+            if (!vh_below(&r, 3)) { unsigned k = cl ? 1 + vh_below(&r, cl) : 0; if (k) memset(cb + cl - k, 0xFF, k); if (cl) cb[cl - 1] = (uint8_t)(0xFF - vh_below(&r, 30)); }
+            memset(m.ctr, 0, 16); memcpy(m.ctr + c->bb - cl, cb, cl);
+            vh_call_begin("ctr_set_counter"); c->ctr_set_counter(&h, cb, cl); vh_call_end();
+            m.pos = 0; m.scope = 1;
+        }
+        {
+            size_t n = vh_below(&r, 48), k; uint64_t cur = (uint64_t)-1; uint8_t ks[16]; int ret;
+            if (vh_below(&r, 9000) == 0 || (op == nops / 2)) { n = 65536 + vh_below(&r, 1000000); ++bigcalls; }   /* a few very large calls */
+            else if (vh_below(&r, 400) == 0) n = 3000 + vh_below(&r, 9000);
+            vh_rand_bytes(&r, in, n > 256 ? 256 : n); if (n > 256) memset(in + 256, (int)(op & 0xFF), n - 256);
+            for (k = 0; k < n; ++k) { uint64_t p = m.pos + k, b = p / c->bb; if (b != cur) { mara_ks(c, &m, b, ks); cur = b; } exp_[k] = in[k] ^ ks[p % c->bb]; }
+            vh_call_begin("ctr_encrypt"); ret = c->ctr_encrypt((op & 1) ? out : in, in, n, &h); vh_call_end();
+            ++calls; VH_COUNT("judged_bytes", n);
+            if (ret != 1 || memcmp((op & 1) ? out : in, exp_, n)) {
+                size_t q = 0; const uint8_t *o = (op & 1) ? out : in; vh_sb sd; char key[200];
+                while (q < n && o[q] == exp_[q]) ++q;
+                sb_init(&sd);
+                sb_printf(&sd, "{\"cipher\":\"%s\",\"backend\":\"%s\",\"call_number\":%llu,\"rekeys_so_far\":%llu,\"call_length\":%lu,\"stream_position\":%llu,\"first_diff_byte\":%lu,\"ret\":%d}",
+                          c->name, vh_backend_names[be], (unsigned long long)calls, (unsigned long long)rekeys, (unsigned long)n, (unsigned long long)m.pos, (unsigned long)q, ret);
+                snprintf(key, sizeof(key), "%s:%s:%s:stream-mismatch-in-long-lived-object", prop, c->name, vh_backend_names[be]);
+                vh_violation(key, sd.p, d); sb_free(&sd);
+                break;
+            }
+            m.pos += n;
+        }
+    }
+    vh_call_begin("ctr_cleanup"); c->ctr_cleanup(&h); vh_call_end();
+    VH_COUNT("marathon_objects", 1); VH_COUNT("marathon_calls", calls); VH_COUNT("marathon_rekeys_and_tweak_changes", rekeys); VH_COUNT("marathon_calls_of_64KiB_or_more", bigcalls);
+    VH_MAXC("max_calls_on_one_object", calls);
+    if (vh_distinct(vh_hash(&idx, 8, vh_seed ^ 0xA7A7))) VH_COUNT("distinct_nontrivial_histories", 1);
+    if (vh_want_sample()) { snprintf(d, sizeof(d), "{\"marathon\":\"%s\",\"backend\":\"%s\",\"calls\":%llu,\"rekeys_and_tweak_changes\":%llu,\"calls_of_64KiB_or_more\":%llu}", c->name, vh_backend_names[be], (unsigned long long)calls, (unsigned long long)rekeys, (unsigned long long)bigcalls); vh_sample(d); }
+}
+
 static void one_case(uint64_t idx)
 {
     vh_rng r;
@@ -268,7 +349,7 @@ int main(int argc, char **argv)
         if (maxbe[i] < 0) { printf("{\"type\":\"inconclusive\",\"reason\":\"cannot identify back end of %s\"}\n", vh_ciphers[i].name); return 2; }
         { char n[64]; snprintf(n, sizeof(n), "max_backend_%s", vh_ciphers[i].name); *vh_counter_ref(n) = (uint64_t)maxbe[i]; }
     }
-    vh_run(one_case);
+    if (!strcmp(vh_arg_mode, "marathon")) vh_run(marathon_case); else vh_run(one_case);
     vh_finish();
     return 0;
 }
